@@ -29,7 +29,7 @@ RULE = (
     "parents {1}, children {(1,10,1),(2,20,0)}, child 1 and parent 1 loaded: every sequence of <= 2 pending "
     "changes from {add child, add parent, set val (2 objects), re-parent, delete} followed by each of the 11 query "
     "kinds in each applicable mode (plain / no_autoflush block / autoflush=False option) and a final plain "
-    "entity query (quick: a seeded sample of 1300; thorough: all), with session autoflush on; plus random "
+    "entity query (quick: a seeded sample of 1000; thorough: all), with session autoflush on; plus random "
     "histories of <= 12 steps (<= 2 parents, <= 3 children, session autoflush on 80%). non-trivial = a query "
     "runs while a change is pending"
 )
@@ -226,8 +226,8 @@ def _rand(rng):
 
 def gen_cases(rng, tier):
     fam = list(_family())
-    cases = fam if tier == "thorough" else rng.sample(fam, 1300)
-    for _ in range(8000 if tier == "thorough" else 900):
+    cases = fam if tier == "thorough" else rng.sample(fam, 1000)
+    for _ in range(8000 if tier == "thorough" else 700):
         cases.append(_rand(rng))
     return cases
 
@@ -488,8 +488,7 @@ def oracle(case, obs):
         rc, ra, rb = o[0], o[1], o[5]
         if rc not in (0, 4):
             continue  # skipped, or get of a present identity (outside the statement)
-        if st[1] == REFRESH:
-            continue  # refresh is not one of the three statement forms (its own object's changes are discarded by design)
+        # (refresh is only performed on an object without pending changes of its own: rc 3 otherwise)
         if ra != rb:
             return "step %d: %s(%s)%s returned %s with autoflush; after an explicit flush (twin session) it returns %s" % (
                 n, _QNAME[st[1]], st[3], " on a pending object" if rc == 4 else "", ra, rb)
